@@ -368,3 +368,63 @@ func Verif_C08_History() {
 	}
 	verifsym.Reach("end")
 }
+
+// Verif_C05_TagLeak: p's type A is enabled for gb only (declaration tag); the
+// other package - sorting before or after p - enables ga in its PACKAGE doc;
+// Globals is, symbolically, nil or a non-nil map holding an unrelated tag.
+// p's files are the same alone and together (a tag of one package must not
+// become visible in another - e.g. through a Globals map that is merged into
+// instead of copied), and the caller's Globals map is not modified.
+func Verif_C05_TagLeak() {
+	pp := "example.com/m/p"
+	other := "q"
+	if verifsym.Bool() {
+		other = "a"
+	}
+	op := "example.com/m/" + other
+	var globals map[string][]string
+	if verifsym.Bool() {
+		globals = map[string][]string{"gengo:zz": {"true"}}
+	}
+	config := func() {
+		vReset()
+		for _, g := range []string{"ga", "gb"} {
+			vSet(g, pp, "A", vActRender)
+			vSet(g, op, "T", vActRender)
+		}
+	}
+	types := []vTypeSpec{{name: "A", tags: map[string][]string{"gengo:gb": {"true"}}}}
+
+	config()
+	w1 := vNewWorldAt("m1")
+	w1.addPkg("p", true, "h1:p", nil, []string{"p.go"}, types)
+	verifsym.Assert(w1.exec(false, true, globals, vProtoA(), &vGenB{}) == nil, "run with p alone fails")
+	n1, d1 := vFilesOf(w1, "p", vSnapshot())
+
+	config()
+	w2 := vNewWorldAt("m2")
+	w2.addPkg("p", true, "h1:p", nil, []string{"p.go"}, types)
+	w2.addPkg(other, true, "h1:o", []string{"+gengo:ga"}, []string{other + ".go"}, []vTypeSpec{{name: "T", tags: map[string][]string{}}})
+	verifsym.Assert(w2.exec(false, true, globals, vProtoA(), &vGenB{}) == nil, "run with p and another package fails")
+	n2, d2 := vFilesOf(w2, "p", vSnapshot())
+	verifsym.Assert(len(vLogOf(op)) > 0, "the other package was not processed in the together run (its package doc enables ga)")
+
+	verifsym.Assert(len(n1) == len(n2), "a different set of files is produced for p when another package is processed")
+	for i := range n1 {
+		if i < len(n2) {
+			verifsym.Assert(n1[i] == n2[i], "a different set of files is produced for p when another package is processed")
+			verifsym.Assert(d1[i] == d2[i], "content generated for p depends on what else is processed in the run (generator state, buffer or import table carried over)")
+		}
+	}
+	for _, l := range vLogOf(pp) {
+		verifsym.Assert(!vHasPrefix(l, "ga:gen:"), "a generator enabled only by ANOTHER package's doc tags ran for p")
+	}
+	if globals != nil {
+		n := 0
+		for range globals {
+			n++
+		}
+		verifsym.Assert(n == 1 && len(globals["gengo:zz"]) == 1, "Execute modified the caller's Globals map")
+	}
+	verifsym.Reach("end")
+}
